@@ -14,9 +14,9 @@ HumanResponseEvent, the base classes themselves, subclasses of StartEvent / Stop
 column (``a_i``) — or, thorough, a union of two — and returns the subset of columns given by its ``r_ij`` bits
 (empty = returns None); workflow-level and per-step ``skip_graph_checks`` are symbolic bits that are only consulted
 once the graph passed the earlier rules (otherwise all-or-nothing from one bit), which keeps the number of solver
-paths proportional to the graphs on which the skips can matter.  The known HITL-flag finding is excluded from
-``ob_graph2`` by the predicate ``sub_only2``; ``ob_graph2_accept_on_hitl_subclass`` re-checks accept/reject on
-exactly that class, so no input is left unsearched for other disagreements.
+paths proportional to the graphs on which the skips can matter.  The HITL-flag defect (flag computed by exact class
+membership) is repaired in /repo, so ``ob_graph2`` / ``ob_graph3`` run without an exclusion; ``ob_graph2_accept_on_hitl_subclass``
+(accept/reject only, on the class ``sub_only2`` the finding used to exclude) is kept as a cheap second look.
 """
 from __future__ import annotations
 
@@ -549,15 +549,5 @@ def ob_graph3(tri: int, a1: int, a2: int, q0: int, q1: int, q2: int, w0: bool, w
     return _agree(steps, _mk_skips(w0, w1, w2, [0, 0, 0]), w0, True)
 
 
-@obligation(quick=None, thorough=1500, partitions_thorough=[f"tri == {t} and a1 {c}" for t in (0, 1, 2) for c in ("<= 1", ">= 2")],
-            what="3-step accept/reject agreement on the inputs excluded from ob_graph3 by the known HITL-flag finding",
-            bounds={"class": "sub_only3(...)"})
-def ob_graph3_accept_on_hitl_subclass(tri: int, a1: int, a2: int, q0: int, q1: int, q2: int, w0: bool, w1: bool,
-                                      w2: bool) -> bool:
-    """
-    pre: 0 <= tri < _NTRI and 0 <= a1 <= a2 <= 4 and 0 <= q0 <= 15 and 0 <= q1 <= 15 and 0 <= q2 <= 15
-    pre: sub_only3(tri, a1, a2, q0, q1, q2)
-    post: _
-    """
-    steps = _steps3(tri, a1, a2, q0, q1, q2)
-    return _agree(steps, _mk_skips(w0, w1, w2, [0, 0, 0]), w0, False)
+# (ob_graph3_accept_on_hitl_subclass was removed once the HITL-flag defect was repaired in /repo (a6b6f65): ob_graph3 no longer
+#  excludes the sub_only3 class, so it checks strictly more on a superset; the two-step twins are kept because they are cheap.)
